@@ -424,7 +424,60 @@ class Inliner:
         except NotInlinable:
             return None
         self.inlined.append((fi.qual, target.qual))
+        stmts = self._fold_result_alias(st, stmts)
         return pre + stmts
+
+    @staticmethod
+    def _fold_result_alias(st, stmts):
+        """`T = helper()` inlined as `...; L__inl = ...; T = L__inl`: the
+        helper's result variable simply becomes T."""
+        tgt = None
+        if isinstance(st, ast.Assign) and len(st.targets) == 1 and isinstance(
+                st.targets[0], ast.Name):
+            tgt = st.targets[0].id
+        elif isinstance(st, ast.AnnAssign) and isinstance(st.target, ast.Name):
+            tgt = st.target.id
+        if tgt is None:
+            return stmts
+        finals = [x for s_ in stmts for x in ast.walk(s_)
+                  if isinstance(x, (ast.Assign, ast.AnnAssign))
+                  and isinstance(x.value, ast.Name)
+                  and "__inl_" in x.value.id
+                  and ((isinstance(x, ast.Assign) and len(x.targets) == 1
+                        and isinstance(x.targets[0], ast.Name)
+                        and x.targets[0].id == tgt)
+                       or (isinstance(x, ast.AnnAssign) and isinstance(
+                           x.target, ast.Name) and x.target.id == tgt))]
+        names = {x.value.id for x in finals}
+        if len(names) != 1 or any(
+                isinstance(x, ast.Name) and x.id == tgt and not any(
+                    x is (f.targets[0] if isinstance(f, ast.Assign)
+                          else f.target) for f in finals)
+                for s_ in stmts for x in ast.walk(s_)):
+            return stmts
+        old = names.pop()
+        drop = {id(f) for f in finals}
+
+        def walk(lst):
+            out = []
+            for s_ in lst:
+                if id(s_) in drop:
+                    continue
+                for f in ("body", "orelse", "finalbody"):
+                    sub = getattr(s_, f, None)
+                    if isinstance(sub, list) and sub and isinstance(
+                            sub[0], ast.stmt):
+                        setattr(s_, f, walk(sub) or ([ast.Pass()]
+                                                     if f == "body" else []))
+                out.append(s_)
+            return out
+
+        stmts = walk(stmts)
+        for s_ in stmts:
+            for x in ast.walk(s_):
+                if isinstance(x, ast.Name) and x.id == old:
+                    x.id = tgt
+        return stmts
 
     def _exprs(self, fi, fn) -> bool:
         inl = self
@@ -555,6 +608,34 @@ def unroll(func: ast.FunctionDef) -> tuple[ast.FunctionDef, bool]:
         ast.fix_missing_locations(new)
         set_parents(new)
     return new, changed[0]
+
+
+class _LiteralComp(ast.NodeTransformer):
+    """[f(x) for x in (a, b, c)] -> [f(a), f(b), f(c)]."""
+
+    def __init__(self):
+        self.changed = False
+
+    def visit_ListComp(self, node):
+        self.generic_visit(node)
+        from .core import _Rename
+        if len(node.generators) == 1 and not node.generators[0].ifs and \
+                not node.generators[0].is_async:
+            g = node.generators[0]
+            # `[base[i] for i in (1, 0, 2)]` is the re-ordering idiom the
+            # table rules read as a permutation: it stays
+            reorder = isinstance(node.elt, ast.Subscript) and isinstance(
+                node.elt.slice, ast.Name) and isinstance(
+                g.target, ast.Name) and node.elt.slice.id == g.target.id
+            if isinstance(g.iter, (ast.Tuple, ast.List)) and g.iter.elts and \
+                    isinstance(g.target, ast.Name) and not reorder and not any(
+                    isinstance(e, ast.Starred) for e in g.iter.elts) and \
+                    len(g.iter.elts) <= 8:
+                self.changed = True
+                return ast.copy_location(ast.List(
+                    [_Rename({g.target.id: e}).visit(clone(node.elt))
+                     for e in g.iter.elts], ast.Load()), node)
+        return node
 
 
 class _ConstGetattr(ast.NodeTransformer):
@@ -693,6 +774,39 @@ class _Canon(ast.NodeTransformer):
                                           node.test)
             node.body = inner.body
             self.changed = True
+        return node
+
+    def _guards(self, body):
+        """`if c: continue` + REST  ->  `if not c: REST` (loop bodies)."""
+        for i, st in enumerate(body):
+            if isinstance(st, ast.If) and not st.orelse and len(
+                    st.body) == 1 and isinstance(st.body[0], ast.Continue) \
+                    and i + 1 < len(body):
+                rest = self._guards(body[i + 1:])
+                neg = ast.UnaryOp(ast.Not(), st.test)
+                if isinstance(st.test, ast.Compare) and len(
+                        st.test.ops) == 1 and type(st.test.ops[0]) in _NEG:
+                    neg = ast.Compare(st.test.left,
+                                      [_NEG[type(st.test.ops[0])]()],
+                                      st.test.comparators)
+                elif isinstance(st.test, ast.UnaryOp) and isinstance(
+                        st.test.op, ast.Not):
+                    neg = st.test.operand
+                new = ast.copy_location(ast.If(
+                    test=ast.copy_location(neg, st.test), body=rest,
+                    orelse=[]), st)
+                self.changed = True
+                return body[:i] + [new]
+        return body
+
+    def visit_For(self, node):
+        self.generic_visit(node)
+        node.body = self._guards(node.body)
+        return node
+
+    def visit_While(self, node):
+        self.generic_visit(node)
+        node.body = self._guards(node.body)
         return node
 
     def visit_IfExp(self, node):
@@ -863,20 +977,27 @@ def propagate_function_aliases(func: ast.FunctionDef,
 
 
 def eliminate_slot_aliases(func: ast.FunctionDef, selfname: str | None,
-                           slots: set[str], rebound: set[str]) -> bool:
-    """``x = self._slot`` (x bound once, the slot not re-bound by this
-    function or anything it calls on self) -> uses of x read self._slot."""
-    if not selfname:
-        return False
+                           slots: set[str], rebound: set[str],
+                           view_props: set[str] = frozenset()) -> bool:
+    """``x = obj._slot`` (x bound once; obj a parameter or a local bound once;
+    the slot not re-bound by this function or by anything it calls on obj)
+    -> uses of x read obj._slot.  For ``self`` also ``x = self.view`` where
+    `view` is a property that returns a live view of a slot."""
     stores = _store_counts(func)
     table, drop = {}, set()
     for n in ast.walk(func):
-        if isinstance(n, ast.Assign) and len(n.targets) == 1 and isinstance(
-                n.targets[0], ast.Name) and stores.get(
-                n.targets[0].id) == 1 and isinstance(
-                n.value, ast.Attribute) and isinstance(
-                n.value.value, ast.Name) and n.value.value.id == selfname \
-                and n.value.attr in slots and n.value.attr not in rebound:
+        if not (isinstance(n, ast.Assign) and len(n.targets) == 1
+                and isinstance(n.targets[0], ast.Name)
+                and stores.get(n.targets[0].id) == 1
+                and isinstance(n.value, ast.Attribute)
+                and isinstance(n.value.value, ast.Name)):
+            continue
+        recv, attr = n.value.value.id, n.value.attr
+        if stores.get(recv, 0) > 1:
+            continue
+        if attr in rebound or "*" in rebound:
+            continue
+        if attr in slots or (recv == selfname and attr in view_props):
             table[n.targets[0].id] = n.value
             drop.add(id(n))
     if not table:
@@ -894,6 +1015,14 @@ def _simple_context(value: ast.AST, name: str) -> bool:
         return value.id == name
     if isinstance(value, ast.UnaryOp):
         return _simple_context(value.operand, name)
+    if isinstance(value, (ast.ListComp, ast.SetComp, ast.GeneratorExp,
+                          ast.DictComp)):
+        # the iterable of the first generator is evaluated once, immediately
+        g0 = value.generators[0]
+        others = [x for x in ast.walk(value) if isinstance(x, ast.Name)
+                  and x.id == name]
+        return isinstance(g0.iter, ast.Name) and g0.iter.id == name and \
+            len(others) == 1
     if isinstance(value, ast.Call) and value.args and dotted(value.func) and \
             not any(isinstance(a, ast.Starred) for a in value.args):
         rest = list(value.args[1:]) + [k.value for k in value.keywords]
@@ -901,6 +1030,125 @@ def _simple_context(value: ast.AST, name: str) -> bool:
                 isinstance(a, ast.Name) and a.id == name) for a in rest):
             return _simple_context(value.args[0], name)
     return False
+
+
+def _pure(e: ast.AST) -> bool:
+    """No call, no comprehension, no walrus: reading e twice or later gives
+    the same value as long as nothing ran in between."""
+    return not any(isinstance(n, (ast.Call, ast.ListComp, ast.SetComp,
+                                  ast.DictComp, ast.GeneratorExp, ast.Lambda,
+                                  ast.NamedExpr, ast.Await, ast.Yield,
+                                  ast.YieldFrom, ast.Starred))
+                   for n in ast.walk(e))
+
+
+def _first_use_before_any_call(header: ast.AST, name: str) -> bool:
+    """name is read in header exactly once, outside comprehensions/lambdas,
+    and no call has completed before that read (left-to-right evaluation)."""
+    state = {"calls_done": 0, "ok": None, "uses": 0}
+
+    def ev(e):
+        if e is None:
+            return
+        if isinstance(e, ast.Name):
+            if e.id == name and isinstance(e.ctx, ast.Load):
+                state["uses"] += 1
+                if state["ok"] is None:
+                    state["ok"] = state["calls_done"] == 0
+            return
+        if isinstance(e, (ast.ListComp, ast.SetComp, ast.DictComp,
+                          ast.GeneratorExp, ast.Lambda)):
+            if any(isinstance(x, ast.Name) and x.id == name
+                   for x in ast.walk(e)):
+                state["uses"] += 2          # not substitutable
+            state["calls_done"] += 1
+            return
+        if isinstance(e, ast.Call):
+            ev(e.func)
+            for a_ in e.args:
+                ev(a_.value if isinstance(a_, ast.Starred) else a_)
+            for k in e.keywords:
+                ev(k.value)
+            state["calls_done"] += 1
+            return
+        for c in ast.iter_child_nodes(e):
+            if isinstance(c, (ast.expr_context, ast.operator, ast.cmpop,
+                              ast.boolop, ast.unaryop)):
+                continue
+            ev(c)
+
+    ev(header)
+    return state["uses"] == 1 and bool(state["ok"])
+
+
+def _header(st: ast.stmt):
+    if isinstance(st, ast.If) or isinstance(st, ast.While):
+        return st.test
+    if isinstance(st, (ast.Return, ast.Expr)):
+        return st.value
+    if isinstance(st, ast.Assign) and len(st.targets) == 1 and isinstance(
+            st.targets[0], ast.Name):
+        return st.value
+    if isinstance(st, ast.For):
+        return st.iter
+    return None
+
+
+def inline_pure_temps(func: ast.FunctionDef) -> bool:
+    """``t = <pure expression>`` directly followed by a statement whose header
+    reads t once before any call completes, t occurring nowhere else -> the
+    expression is written in place."""
+    counts: dict[str, int] = {}
+    for n in ast.walk(func):
+        if isinstance(n, ast.Name):
+            counts[n.id] = counts.get(n.id, 0) + 1
+    changed = False
+
+    def walk(stmts):
+        nonlocal changed
+        out = []
+        i = 0
+        while i < len(stmts):
+            st = stmts[i]
+            for f in ("body", "orelse", "finalbody"):
+                sub = getattr(st, f, None)
+                if isinstance(sub, list) and sub and isinstance(
+                        sub[0], ast.stmt):
+                    setattr(st, f, walk(sub))
+            for h in getattr(st, "handlers", []) or []:
+                h.body = walk(h.body)
+            nxt = stmts[i + 1] if i + 1 < len(stmts) else None
+            hdr = _header(nxt) if nxt is not None else None
+            if isinstance(st, ast.Assign) and len(st.targets) == 1 and \
+                    isinstance(st.targets[0], ast.Name) and counts.get(
+                    st.targets[0].id) == 2 and hdr is not None and \
+                    _pure(st.value) and not isinstance(
+                    st.value, (ast.Constant,)) and \
+                    _first_use_before_any_call(hdr, st.targets[0].id):
+                name, value = st.targets[0].id, st.value
+
+                class T(ast.NodeTransformer):
+                    def visit_Name(self, node):
+                        if node.id == name and isinstance(node.ctx, ast.Load):
+                            return value
+                        return node
+
+                new_hdr = T().visit(hdr)
+                if isinstance(nxt, (ast.If, ast.While)):
+                    nxt.test = new_hdr
+                elif isinstance(nxt, ast.For):
+                    nxt.iter = new_hdr
+                else:
+                    nxt.value = new_hdr
+                changed = True
+                i += 1
+                continue
+            out.append(st)
+            i += 1
+        return out
+
+    func.body = walk(func.body)
+    return changed
 
 
 def inline_single_use_temps(func: ast.FunctionDef) -> bool:
@@ -930,7 +1178,8 @@ def inline_single_use_temps(func: ast.FunctionDef) -> bool:
                     isinstance(st.targets[0], ast.Name) and counts.get(
                     st.targets[0].id) == 2 and isinstance(
                     nxt, (ast.Return, ast.Assign)) and nxt.value is not None \
-                    and not isinstance(nxt.value, ast.Name) and \
+                    and not (isinstance(nxt.value, ast.Name)
+                             and isinstance(nxt, ast.Return)) and \
                     _simple_context(nxt.value, st.targets[0].id) and (
                     isinstance(nxt, ast.Return) or (
                         len(nxt.targets) == 1 and isinstance(
@@ -944,7 +1193,10 @@ def inline_single_use_temps(func: ast.FunctionDef) -> bool:
                             return value
                         return node
 
-                T().visit(nxt)
+                if isinstance(nxt.value, ast.Name):
+                    nxt.value = value
+                else:
+                    T().visit(nxt)
                 changed = True
                 i += 1
                 continue
@@ -960,6 +1212,7 @@ def canonicalise(func: ast.FunctionDef, selfname: str | None = None,
                  slots: set[str] = frozenset(),
                  rebound: set[str] = frozenset(),
                  module_funcs: set[str] = frozenset(),
+                 view_props: set[str] = frozenset(),
                  ) -> tuple[ast.FunctionDef, bool]:
     new = clone(func)
     c = _Canon()
@@ -967,9 +1220,13 @@ def canonicalise(func: ast.FunctionDef, selfname: str | None = None,
     ch = c.changed
     ch |= propagate_constants(new)
     ch |= propagate_function_aliases(new, module_funcs)
-    ch |= eliminate_slot_aliases(new, selfname, slots, rebound)
+    ch |= eliminate_slot_aliases(new, selfname, slots, rebound, view_props)
     ch |= inline_return_temps(new)
     ch |= inline_single_use_temps(new)
+    ch |= inline_pure_temps(new)
+    lc = _LiteralComp()
+    new = lc.visit(new)
+    ch |= lc.changed
     if ch:
         ast.fix_missing_locations(new)
         set_parents(new)
@@ -1017,9 +1274,57 @@ def _rebinders(prog) -> dict[str, set[str]]:
 
 
 def _rebound_slots(prog, fi, rebinders) -> set[str]:
-    out = set(rebinders.get(fi.name, set()))
-    if "*" in out:
-        return {"*"} | set(prog.all_slots(fi.cls.name))
+    """Attributes that may be re-bound while fi runs: by fi itself (on any
+    receiver) or by a method of that name called on any object in fi."""
+    out: set[str] = set()
+    for n in ast.walk(fi.node):
+        if isinstance(n, ast.Attribute) and isinstance(
+                n.ctx, (ast.Store, ast.Del)):
+            out.add(n.attr)
+        elif isinstance(n, ast.Call) and isinstance(n.func, ast.Attribute):
+            out |= rebinders.get(n.func.attr, set())
+        elif isinstance(n, ast.Call) and dotted(n.func) in (
+                "setattr", "object.__setattr__"):
+            out.add("*")
+    return out
+
+
+def _view_properties(prog) -> dict[str, set[str]]:
+    """class -> properties (along its MRO) whose body is one return of a
+    live view of a slot: self._s, self._s.keys()/.values()/.items(),
+    MappingProxyType(self._s)."""
+    out: dict[str, set[str]] = {}
+    for cname in prog.classes:
+        try:
+            mro = prog.mro(cname)
+        except Exception:
+            continue
+        props: set[str] = set()
+        for c in mro:
+            ci = prog.classes.get(c)
+            if ci is None:
+                continue
+            for name, m in ci.methods.items():
+                if not m.is_property() or not m.params():
+                    continue
+                body = _body(m.node)
+                if len(body) != 1 or not isinstance(body[0], ast.Return) or \
+                        body[0].value is None:
+                    continue
+                e = body[0].value
+                me = m.params()[0]
+                if isinstance(e, ast.Call) and dotted(e.func) in (
+                        "MappingProxyType", "types.MappingProxyType") and \
+                        len(e.args) == 1:
+                    e = e.args[0]
+                if isinstance(e, ast.Call) and isinstance(
+                        e.func, ast.Attribute) and e.func.attr in (
+                        "keys", "values", "items") and not e.args:
+                    e = e.func.value
+                if isinstance(e, ast.Attribute) and isinstance(
+                        e.value, ast.Name) and e.value.id == me:
+                    props.add(name)
+        out[cname] = props
     return out
 
 
@@ -1038,6 +1343,10 @@ def normalise_program(prog, *, inline: bool = True,
     # inline bottom-up enough: MAX_ROUNDS rounds per function cover nesting
     replacements: dict[str, ast.FunctionDef] = {}
     rebinders = _rebinders(prog) if canonical else {}
+    all_slots: set[str] = set()
+    for ci in prog.classes.values():
+        all_slots |= set(ci.slots or ())
+    view_props = _view_properties(prog) if canonical else {}
     for q in quals:
         fi = prog.functions[q]
         node = fi.node
@@ -1050,18 +1359,16 @@ def normalise_program(prog, *, inline: bool = True,
                 node = u
                 report["unrolled"].append(q)
         if canonical:
-            selfname, slots, rebound = None, set(), set()
+            selfname, vprops = None, set()
             if fi.cls is not None and not fi.is_staticmethod() and \
                     not fi.is_classmethod() and fi.params():
                 selfname = fi.params()[0]
-                try:
-                    slots = set(prog.all_slots(fi.cls.name))
-                except Exception:
-                    slots = set()
-                rebound = _rebound_slots(prog, fi, rebinders)
+                vprops = view_props.get(fi.cls.name, set())
+            rebound = _rebound_slots(prog, fi, rebinders)
             mfuncs = {f.name for f in prog.functions.values()
                       if f.module is fi.module and f.cls is None}
-            u, ch = canonicalise(node, selfname, slots, rebound, mfuncs)
+            u, ch = canonicalise(node, selfname, all_slots, rebound, mfuncs,
+                                 vprops)
             if ch:
                 node = u
                 report["canonicalised"].append(q)
